@@ -11,6 +11,7 @@
 From Coq Require Import ZArith List Bool.
 From Galene Require Import Lib.Word Generated.Consts Model.PacketMap Model.Layers Model.Forward.
 From Galene Require Import Proofs.Layers Proofs.LayersAtomic Proofs.ForwardProps.
+From Galene Require Import Model.Rewrite Model.Flags Proofs.FlagsCodec.
 Import ListNotations.
 Open Scope Z_scope.
 
@@ -127,6 +128,73 @@ Theorem C04_limit_never_lost : forall es l f,
   (f_start f = true -> f_keyframe f = true -> sid (astep l' (AW2 f)) = 0).
 Proof. exact limit_never_lost. Qed.
 Print Assumptions C04_limit_never_lost.
+
+(* ---- what the flags mean on the wire ---- *)
+
+(* For EVERY VP8 payload descriptor (RFC 7741: N, S, partition index, optional
+   7- or 15-bit picture id, TL0PICIDX, TID/Y, KEYIDX, any reserved bits), every
+   RTP header without extension or padding (any CSRC count) and every codec
+   payload: the flags that PacketFlags hands to Write are the descriptor's
+   fields - a frame starts at S = 1 with partition index 0, a keyframe is a
+   frame start whose first payload octet has its low bit clear, the temporal
+   layer is TID, an up-switch point is a keyframe or Y = 1. *)
+Theorem C04_flags_vp8 : forall b0 b1 b2 b3 cc tail d jt jk pl,
+  hdr_ok b0 cc tail -> v8_wf d -> 0 <= jt < 8 -> 0 <= jk < 32 ->
+  let start := e_s d && (e_partid d =? 0) in
+  let kf := start && match pl with [] => false | h :: _ => negb (bit h 0) end in
+  packet_flags CVP8 (b0 :: b1 :: b2 :: b3 :: tail ++ vp8_encode d jt jk ++ pl) =
+  FOk (mkFlags (b2 * 256 + b3) (bit b1 7) start (bit b1 7) kf
+               (match e_pic d with Some (_, p) => p | None => 0 end)
+               (match e_tid d with Some (t, _) => t | None => 0 end) 0
+               (kf || match e_tid d with Some (_, y) => y | None => false end) kf false)
+      (e_n d).
+Proof. exact packet_flags_vp8. Qed.
+Print Assumptions C04_flags_vp8.
+
+(* The same for VP9 (descriptor without scalability structure: I, P, L, F, B,
+   E, Z, picture id, layer indices in both modes, one to three reference
+   indices): start = B, end = E, layers = TID/SID, temporal up-switch = U,
+   spatial up-switch = not inter-picture predicted. *)
+Theorem C04_flags_vp9 : forall b0 b1 b2 b3 cc tail d pl,
+  hdr_ok b0 cc tail -> v9_wf d ->
+  let kf :=
+    match pl with
+    | h :: _ =>
+      if n_b d && (bits h 6 2 =? 2) then
+        if negb (bits h 4 2 =? 3) then bits h 2 2 =? 0 else bits h 1 2 =? 0
+      else false
+    | [] => false
+    end in
+  packet_flags CVP9 (b0 :: b1 :: b2 :: b3 :: tail ++ vp9_encode d ++ pl) =
+  FOk (mkFlags (b2 * 256 + b3) (bit b1 7) (n_b d) (n_e d) kf 0
+               (match n_layer d with Some (t, _, _, _, _) => t | None => 0 end)
+               (match n_layer d with Some (_, _, s, _, _) => s | None => 0 end)
+               (kf || match n_layer d with Some (_, u, _, _, _) => u | None => false end)
+               (kf || negb (n_p d)) (n_z d))
+      false.
+Proof. exact packet_flags_vp9. Qed.
+Print Assumptions C04_flags_vp9.
+
+(* non-vacuity of the two: a first packet of a VP8 key frame on temporal
+   layer 2 with a 15-bit picture id, and a VP9 packet on layers (1, 2) *)
+Example C04_flags_example :
+  let hdr := [128; 224; 1; 2] in let tail := [0; 0; 0; 1; 0; 0; 18; 52] in
+  let d8 := mkV8d false true 0 false false 0 (Some (true, 300)) None (Some (2, true)) None in
+  let d9 := mkV9d true false true false true (Some (false, 5)) (Some (1, true, 2, false, 9)) [1] in
+  hdr_ok 128 0 tail /\ v8_wf d8 /\ v9_wf d9 /\
+  packet_flags CVP8 (hdr ++ tail ++ vp8_encode d8 0 0 ++ [16; 1]) =
+    FOk (mkFlags 258 true true true true 300 2 0 true true false) false /\
+  packet_flags CVP9 (hdr ++ tail ++ vp9_encode d9 ++ [130]) =
+    FOk (mkFlags 258 true true false true 0 1 2 true true true) false.
+Proof.
+  cbv zeta. split; [|split; [|split; [|split]]].
+  - unfold hdr_ok. vm_compute. repeat split; discriminate.
+  - unfold v8_wf. cbn. repeat split; try discriminate; auto.
+  - unfold v9_wf. cbn. repeat split; try discriminate; auto.
+    repeat constructor; discriminate.
+  - vm_compute. reflexivity.
+  - vm_compute. reflexivity.
+Qed.
 
 (* non-vacuity: two temporal layers, congestion, the receiver goes down to
    tid 0 at the next frame start and the in-order tid-1 packet is marked *)
